@@ -250,7 +250,9 @@ DeleteRetMonitors(r, c) ==
     LET D == SeqRange(c.bands) IN
        If(r.panic /\ ~r.crashed, {<<"Panic", r.pmsg>>})
   \cup If(r.timeout, {<<"Hang", "delete">>})
-  \cup If(c.dry /\ ~r.crashed /\ g.mode # "conc" /\ fs # c.fs0, {<<"DryRunChanged", 0>>})
+  \* (with --break-lock a stale lock is removed first: that much was asked for even of a dry run)
+  \cup If(c.dry /\ ~r.crashed /\ g.mode # "conc"
+             /\ (IF c.brk THEN [fs EXCEPT !.lock = FALSE] # [c.fs0 EXCEPT !.lock = FALSE] ELSE fs # c.fs0), {<<"DryRunChanged", 0>>})
   \* (--break-lock removes the stale lock before the refusal can happen: that much was asked for)
   \cup If(r.res \in {"err:DeleteWithIncompleteBackup", "err:GarbageCollectionLockHeld"} /\ ~c.injected /\ g.mode # "conc"
              /\ (IF c.brk THEN [fs EXCEPT !.lock = FALSE] # [c.fs0 EXCEPT !.lock = FALSE] ELSE fs # c.fs0),
